@@ -367,6 +367,7 @@ func (h *fwdHist) write(buf []byte, inCache bool, kf bool) {
 	}
 	if resync {
 		h.withheld = nil
+		h.shiftK = 0 // the map starts afresh: delta 0
 		h.sent = map[uint16]sentRec{}
 		h.haveFwdPid = false
 		h.droppedFrames = 0
@@ -785,6 +786,16 @@ func runForward(t *tr.Trace, r *tr.Rand, n int) {
 				default:
 					h.dump()
 				}
+			}
+			if stream != "steady" && r.Chance(1, 60) {
+				// the publisher's numbering jumps beyond the window (a restart or a
+				// long outage): the map re-synchronises, and nothing of the old
+				// numbering (deltas, withheld-frame count) may survive
+				g.seq += uint16(r.Range(8193, 30000))
+				if r.Bool() {
+					g.seq -= uint16(r.Range(16386, 60000))
+				}
+				h.t.Note("seqno-jump")
 			}
 			if r.Chance(1, 40) && len(h.withheld) > 0 {
 				// move the deltas: to zero (seqno delta wrapped all the way round
